@@ -1113,6 +1113,23 @@ func (g *c08Run) deterministic() error {
 			{Kind: "CancelBid", S: C, Name: c08N1}, {Kind: "AcceptBid", S: A, Name: c08N1, T: B}, {Kind: "AcceptBid", S: A, Name: c08N1, T: B}, {Kind: "CancelBid", S: B, Name: c08N1},
 			{Kind: "Bid", S: C, Name: c08N1, Denom: "awei", Big: two63m1}, {Kind: "Bid", S: A, Name: c08N1, Denom: "awei", Big: two63}, {Kind: "AcceptBid", S: B, Name: c08N1, T: A}, {Kind: "CancelBid", S: C, Name: c08N1},
 			{Kind: "List", S: A, Name: c08N1, Denom: "awei", Big: two64p}, {Kind: "Buy", S: C, Name: c08N1}})
+	// a record of A's name whose label spells B's name: messages in the record form "harbor.quay.jkl" never reach harbor.jkl
+	hs = append(hs, []c08Op{reg(A, "quay.jkl"), reg(B, "harbor.jkl"), {Kind: "AddRecord", S: A, Name: "quay.jkl", Rec: "harbor", Val: c08AddrOf(A), Data: "rec"},
+		{Kind: "Update", S: A, Name: "harbor.quay.jkl", Data: "taken"}, {Kind: "Transfer", S: A, Name: "harbor.quay.jkl", T: C}, {Kind: "List", S: A, Name: "harbor.quay.jkl", Denom: "ujkl", Amt: 5},
+		{Kind: "Buy", S: C, Name: "harbor.quay.jkl"}, {Kind: "Bid", S: C, Name: "harbor.quay.jkl", Denom: "ujkl", Amt: 9}, {Kind: "AcceptBid", S: A, Name: "harbor.quay.jkl", T: C},
+		{Kind: "AddRecord", S: A, Name: "harbor.quay.jkl", Rec: "deep", Val: "v", Data: "d"}, {Kind: "DelRecord", S: A, Name: "harbor.quay.jkl"}, {Kind: "MakePrimary", S: A, Name: "harbor.quay.jkl"},
+		{Kind: "CancelBid", S: C, Name: "harbor.quay.jkl"}, {Kind: "Update", S: B, Name: "harbor.jkl", Data: "mine"}})
+	// MsgInit hands out a generated name: never one somebody holds (the neighbours of the name of height 700 are paid
+	// for by A; B is served, C and the poor account initialise in the same block)
+	{
+		trap := []c08Op{{Kind: "SetHeight", H: 700}}
+		for k := 1; k <= 6; k++ {
+			trap = append(trap, reg(A, rnstypes.MakeName(700+k, 700)+".jkl"))
+		}
+		trap = append(trap, c08Op{Kind: "Init", S: B}, c08Op{Kind: "Init", S: C}, c08Op{Kind: "Init", S: 3}, c08Op{Kind: "Init", S: A}, c08Op{Kind: "SetHeight", H: 701}, c08Op{Kind: "Init", S: C},
+			c08Op{Kind: "Update", S: A, Name: rnstypes.MakeName(706, 700) + ".jkl", Data: "still-mine"})
+		hs = append(hs, trap)
+	}
 	for i, h := range hs {
 		if err := g.fresh(); err != nil {
 			return err
